@@ -16,8 +16,11 @@ RULE = ("case = (BUF, input bytes, delivery schedule, script). Inputs from the t
         "boundaries, between '-' and digits, between CR and LF, BUF-1/BUF/BUF+1 (BUF extracted from reader.rs), Interrupted at "
         "chosen read calls; for inputs of <= 6 bytes ALL chunkings x all single-interrupt placements. Scripts mix read::<T>, "
         "tuples, read_vec, read_line(s), is_eof. Every case is also replayed by the harness under the one-big-read schedule and "
-        "through an independent tokenizer; a difference is marked in the view. non-trivial = distinct in-domain case whose "
-        "schedule splits the input into at least two reads or contains an Interrupted event")
+        "through an independent tokenizer; a difference is marked in the view. The spec (S) and the view constrain only the "
+        "in-domain prefix of a script (valid integer tokens in range, no token/char read when nothing is left); ` ~` marks that "
+        "later operations are outside the property's domain: their results are compared with the model (raw) but are never a "
+        "counterexample. non-trivial = distinct case with a non-empty in-domain prefix whose schedule splits the input into at "
+        "least two reads or contains an Interrupted event")
 ASSUMPTIONS = [
     "the Lean model of rlib_io::Reader is hand-written; it is tied to the code by running both on the same (input, schedule, script) cases",
     "the source obeys the std::io::Read contract: it never reports more bytes than it wrote, and after returning 0 it has no more data",
@@ -85,6 +88,8 @@ def harness_args(params, profile):
 def nontrivial(case, rec):
     """schedule splits the input or interrupts a read (header = `BUF hex sched`)."""
     try:
+        if rec["model"] is not None and rec["model"][2].startswith("- ~"):
+            return False
         hdr = case.split(";")[0].split()
         buf, hx, sched = int(hdr[0]), hdr[1], hdr[2]
     except (IndexError, ValueError):
